@@ -5,11 +5,11 @@ import e2
 _builds = {}
 
 
-def get_build(chk, prec="d", vendor=False, idx64=False, asan=False, extra_defs=()):
-    key = (prec, vendor, idx64, asan, tuple(extra_defs))
+def get_build(chk, prec="d", vendor=False, idx64=False, asan=False, extra_defs=(), extra_src=()):
+    key = (prec, vendor, idx64, asan, tuple(extra_defs), tuple(extra_src))
     if key not in _builds:
         wd = os.path.join(chk.scratch, "b_%s%s%s%s_%d" % (prec, "v" if vendor else "", "64" if idx64 else "", "a" if asan else "", len(_builds)))
-        _builds[key] = e2.Build(wd, prec, vendor=vendor, idx64=idx64, asan=asan, extra_defs=extra_defs).build_lib()
+        _builds[key] = e2.Build(wd, prec, vendor=vendor, idx64=idx64, asan=asan, extra_defs=extra_defs, extra_src=extra_src).build_lib()
     return _builds[key]
 
 
@@ -40,12 +40,12 @@ def concrete_run(exe, case, valfile, tol=None, timeout=120):
 
 
 def run_phase(chk, name, harness, cases, id_prefixes, prec="d", vendor=False, idx64=False, asan=False, budget_s=240, qtimeout_ms=10000,
-              defs=(), bounds="", env=None, key_extra=None, crash_is_violation=False, event_violations=(), validate_samples=4, tol=None, note_check=None,
+              defs=(), bounds="", env=None, key_extra=None, extra_src=(), crash_is_violation=False, event_violations=(), validate_samples=4, tol=None, note_check=None,
               monitor_ids=()):
     """id_prefixes: assertion-id prefixes that belong to the property being checked.
     monitor_ids: path-record counters ('global_stores', 'ws_viol', 'heap_errors') that are violations when non-zero."""
     t0 = time.time()
-    b = get_build(chk, prec, vendor, idx64, asan)
+    b = get_build(chk, prec, vendor, idx64, asan, extra_src=extra_src)
     hname = os.path.splitext(os.path.basename(harness))[0] + "_" + hashlib.md5((" ".join(defs)).encode()).hexdigest()[:6]
     exe = os.path.join(b.wd, hname)
     if not os.path.exists(exe): exe = b.build_harness(harness, hname, defs)
